@@ -224,6 +224,10 @@ fn collect_choice_labels_recursive(
     labels: &mut BTreeMap<String, String>,
     choice_index: &mut usize,
 ) {
+    if path_exceeds_story_depth(&scope.path) {
+        return;
+    }
+
     let mut i = 0;
     while i < nodes.len() {
         match &nodes[i] {
